@@ -70,6 +70,10 @@ func (bf *Bitfield) Add(id hotstuff.ID) {
 
 // Contains returns true if the set contains the ID.
 func (bf Bitfield) Contains(id hotstuff.ID) bool {
+	if id == 0 {
+		// IDs start at 1; 0 is what a failed peer lookup leaves in a message.
+		return false
+	}
 	byteIdx, bitIdx := index(id)
 	if len(bf.data) <= byteIdx {
 		return false
